@@ -126,8 +126,14 @@ class Graph:
         a, oa, b, ob, ov, tags = l
         return "\t".join(["L", a, oa, b, ob, f"{ov}M"] + list(tags))
 
-    def lines(self, rng=None, with_seq=True, shuffle=False, bo_no=None, interleave=False):
-        s = [self.s_line(n, with_seq, bo_no) for n in self.nodes.values()]
+    def lines(self, rng=None, with_seq=True, shuffle=False, bo_no=None, interleave=False, lex_so=False):
+        nodes = list(self.nodes.values())
+        if lex_so:
+            # S lines in the order a text sort by (contig, offset-as-string) gives: 0, 1000, 200, 30 ...
+            # (non-decreasing as strings, out of order as numbers)
+            nodes.sort(key=lambda n: (n.contig, str(n.so)))
+            shuffle = False
+        s = [self.s_line(n, with_seq, bo_no) for n in nodes]
         l = [self.l_line(x) for x in self.links]
         if shuffle and rng is not None:
             if interleave:
